@@ -68,6 +68,30 @@ pub struct WrongStruct {
     pub w: Wrong,
 }
 
+/// generic zero-copy definitions: the offending type arrives through a type
+/// parameter (as the field type itself, inside an array, in an enum variant)
+#[derive(epserde::Epserde, Clone, Copy)]
+#[repr(C)]
+#[zero_copy]
+pub struct WrapS<T: ZeroCopy> {
+    pub tag: u64,
+    pub inner: T,
+}
+#[derive(epserde::Epserde, Clone, Copy)]
+#[repr(C)]
+#[zero_copy]
+pub struct WrapA<T: ZeroCopy> {
+    pub tag: u64,
+    pub inner: [T; 2],
+}
+#[derive(epserde::Epserde, Clone, Copy)]
+#[repr(C)]
+#[zero_copy]
+pub enum WrapE<T: ZeroCopy> {
+    Empty,
+    Full(T),
+}
+
 /// a sink on which any write is an error of the property
 pub struct NoWrite;
 impl WriteNoStd for NoWrite {
@@ -113,6 +137,12 @@ must_panic!(zero_check_derived_enum_named, WrongEnumN::Named { w: Wrong(kani::an
 must_panic!(zero_check_derived_struct, WrongStruct { id: kani::any(), w: Wrong(kani::any()) });
 
 /// vacuity guard: a correctly declared type does reach the end
+// @h zero_check_generic_struct props=C17,C05 tier=quick kind=complete vars="v:WrapS<Wrong> (derived generic zero-copy struct, offending type bound to the parameter)" allow="Cannot serialize type|check_zero_copy::" fns="derive:IS_ZERO_COPY"
+must_panic!(zero_check_generic_struct, WrapS::<Wrong> { tag: kani::any(), inner: Wrong(kani::any()) });
+// @h zero_check_generic_array props=C17,C05 tier=quick kind=complete vars="v:WrapA<Wrong> (field type [T;2] mentions the parameter)" allow="Cannot serialize type|check_zero_copy::" fns="derive:IS_ZERO_COPY,impls/array.rs:IS_ZERO_COPY"
+must_panic!(zero_check_generic_array, WrapA::<Wrong> { tag: kani::any(), inner: [Wrong(kani::any()), Wrong(kani::any())] });
+// @h zero_check_generic_enum props=C17,C05 tier=quick kind=complete vars="v:WrapE<Wrong>::Full (derived generic zero-copy enum)" allow="Cannot serialize type|check_zero_copy::" fns="derive:IS_ZERO_COPY"
+must_panic!(zero_check_generic_enum, WrapE::<Wrong>::Full(Wrong(kani::any())));
 // @h zero_check_canary props=C17 tier=quick kind=complete expect=fail vars="v:[u32;2] (correct): the must-not-return assertion must fail" fns="ser/helpers.rs:check_zero_copy"
 #[kani::proof]
 #[kani::unwind(6)]
